@@ -42,6 +42,9 @@ type c18Case struct {
 	Items   []string    `json:"items"` // token texts, joined by Seps
 	Seps    []string    `json:"seps"`
 	ItemHex []string    `json:"items_hex,omitempty"`
+	// Warm: before the input, the same parser lexes a text whose escape the mapper rejects (the failed call must not
+	// leave anything behind)
+	Warm bool `json:"warm,omitempty"`
 }
 
 func (c *c18Case) input() string {
@@ -186,6 +189,13 @@ func checkC18(c *c18Case, r *vstat.Run) outcome {
 	var err error
 	if pm := guard(func() { p, err = participle.Build[c18Grammar](opts...) }); pm != "" || err != nil {
 		return violationf("build", "Build failed: %v %s\ncase %s", err, pm, mustJSON(c))
+	}
+	if c.Warm {
+		_ = guard(func() {
+			_, _ = p.Lex("w", strings.NewReader(`first "\ud800" last`))
+			_, _ = p.ParseString("w", `x '\400' y`)
+		})
+		seen = nil
 	}
 	var got []lexer.Token
 	var lerr error
@@ -430,6 +440,25 @@ func TestC18(t *testing.T) {
 			at := rapid.IntRange(0, len(c.Mappers)).Draw(t, "recat")
 			c.Mappers = append(c.Mappers[:at:at], append([]c18Mapper{rec}, c.Mappers[at:]...)...)
 		}
+		// the same body in another quoting style: a double-quoted literal with a backslash, and that very text
+		// between back-quotes (where the backslash stands for itself)
+		if rapid.IntRange(0, 5).Draw(t, "twin") == 0 {
+			for _, it := range c.Items {
+				if len(it) > 2 && it[0] == '"' && strings.Contains(it, "\\") && !strings.ContainsAny(it[1:len(it)-1], "`\n\r") {
+					twin := "`" + it[1:len(it)-1] + "`"
+					if rapid.Bool().Draw(t, "twinfirst") {
+						c.Items = append([]string{twin}, c.Items...)
+						c.Seps = append([]string{""}, c.Seps...)
+						c.Seps[1] = " "
+					} else {
+						c.Items = append(c.Items, twin)
+						c.Seps = append(c.Seps, " ")
+					}
+					break
+				}
+			}
+		}
+		c.Warm = rapid.IntRange(0, 3).Draw(t, "warm") == 0
 		for _, it := range c.Items {
 			c.ItemHex = append(c.ItemHex, fmt.Sprintf("%x", it))
 		}
